@@ -4,5 +4,5 @@ CONSTANTS
   MaxCalls = 4
   MaxBatch = 2
   AddInsteadOfUpdate = FALSE
-INVARIANTS Inv_Dag Inv_C16_Edge Inv_C16_Batch
+INVARIANTS Inv_Dag Inv_C16_Edge Inv_C16_Batch Inv_DescMap
 CHECK_DEADLOCK FALSE
